@@ -41,6 +41,11 @@ def build_names(d):
         'two_bad': ['1st', '2nd', 'ok', 'fine'],
         'sortkey_tie': ['a1', 'a01', 'b', 'c'],
         'plain': ['in0', 'in1', 'st', 'res'],
+        'keywords2': ['noshowcancelled', 'rcmos', 'pulsestyle_onevent', 'pulsestyle_ondetect'],
+        'keywords3': ['automatic', 'genvar', 'endgenerate', 'xnor'],
+        'unicode': ['gr\u00f6\u00dfe', 'z\u00e4hler', 'na\u00efve_sum', 'out_\u00e9'],
+        'dollar': ['a$b', '$x', 'c$', 'd'],
+        'own_names': ['tb_iter', 'block', 'toplevel', 'mem_0'],
     }
     n0, n1, n2, n3 = sets[k]
     a = pyrtl.Input(2, n0)
@@ -48,7 +53,13 @@ def build_names(d):
     r = pyrtl.Register(4, n2, reset_value=d.get('rv', 5))
     o = pyrtl.Output(5, n3)
     r.next <<= (r + a)[0:4] ^ b
-    o <<= pyrtl.concat(r[0], r) + b
+    if k == 'own_names':
+        # a memory too: its generated array is called mem_<id>, which one of the wires is already called
+        m = pyrtl.MemBlock(bitwidth=5, addrwidth=2, name='m', asynchronous=True)
+        m[a] <<= pyrtl.concat(r[0], r)
+        o <<= m[a] + b
+    else:
+        o <<= pyrtl.concat(r[0], r) + b
     return pyrtl.working_block()
 
 
@@ -56,7 +67,8 @@ designs.register_family('NAMES', build_names)
 
 
 def names_cases():
-    return [{'fam': 'NAMES', 'kind': k} for k in ('keywords', 'illegal_chars', 'brackets', 'collide_tmp', 'two_bad', 'sortkey_tie', 'plain')]
+    return [{'fam': 'NAMES', 'kind': k} for k in ('keywords', 'illegal_chars', 'brackets', 'collide_tmp', 'two_bad', 'sortkey_tie', 'plain',
+                                                     'keywords2', 'keywords3', 'unicode', 'dollar', 'own_names')]
 
 
 def bounds(tier):
@@ -326,7 +338,10 @@ def _check_testbench(case, ob, site, block, r, tracer, regs0, mems0, assume, v):
             pyrtl.output_verilog_testbench(buf, simulation_trace=tracer, add_reset=ar, vcd=None, **kw)
     except Exception as e:
         return ob.fact('output_verilog_testbench-accepts-trace', False, site + ':raises', detail='%s: %s' % (type(e).__name__, e))
-    tb = vtrans.Testbench(buf.getvalue())
+    try:
+        tb = vtrans.Testbench(buf.getvalue())
+    except vtrans.VTransError as e:
+        return ob.fact('emitted-testbench-is-well-formed', False, site + ':tb-malformed', detail=str(e))
     mp, err = match_ports(block, mod)
     if mp is None:
         return ob.fact('ports-match-the-design', False, site + ':ports', detail=err)
